@@ -56,6 +56,7 @@ type Run struct {
 	schedSeeded                bool
 	schedState                 uint64
 	cancelAt                   int
+	cancelReason               Value
 	cliVals                    map[string]Value
 	cliCalls                   StrV
 	cliOut                     StrV
